@@ -1,7 +1,7 @@
 (* The request/response interface the extracted driver serves. *)
 From Coq Require Import ZArith NArith List Bool.
 From Coq Require Import Strings.Byte.
-Require Import Bytes Value Expr Codec Float Stream Syntax Sizeof Parse Build Hex Containers.
+Require Import Bytes Value Expr Codec Float Stream Syntax Sizeof Parse Build Hex Containers Lazy.
 Import ListNotations.
 
 Inductive request :=
@@ -11,7 +11,8 @@ Inductive request :=
 | REval (e : expr) (kw : list (name * val))
 | RHexdump (data : bytes) (linesize : N)
 | RHexundump (text : bytes) (linesize : N)
-| RCops (ops : list cop).
+| RCops (ops : list cop)
+| RLazy (c : con) (kw : list (name * val)) (data : bytes) (start : N) (h : list nat).
 
 Inductive response :=
 | ROkParse (v : val) (pos : Z)
@@ -20,6 +21,7 @@ Inductive response :=
 | ROkVal (v : val)
 | ROkBytes (b : bytes)
 | ROuts (o : list cout)
+| ROkLazy (pos : Z) (o : list lout)
 | RErr (e : err) (p : option path).
 
 Definition run (r : request) : response :=
@@ -49,4 +51,9 @@ Definition run (r : request) : response :=
   | RHexundump text ls =>
       match hexundump text (N.to_nat ls) with Some s => ROkBytes s | None => RErr EValue None end
   | RCops ops => ROuts (run_cops ops)
+  | RLazy c kw data start h =>
+      match lazy_run c kw data start h with
+      | Ok (pos, outs) => ROkLazy pos outs
+      | Err e p => RErr e p
+      end
   end.
